@@ -3,6 +3,14 @@
 import json, subprocess
 
 CHECKS = {
+ "C02": dict(level="exploration", design="§4 C02",
+   technique="runtime monitoring: executable reference model (README multi-writer rules) over the accepted statements, compared with every writer's local view after each statement and with merged fresh opens",
+   text="Random multi-writer histories with globally distinct, non-monotone write times, refresh points and transactions are run on the real extension; after every statement the writer's own dump must equal the model applied to its causal past, and read-only/read-write fresh opens at the end must equal the model over all committed statements; re-partitions of the same statements onto one writer must agree when they accept the same statements. Exploration: histories are sampled.",
+   note="Trusts the 40-line model as the reading of the README; acceptance is taken from the system (success and >=1 changed row); ties in write time are not generated."),
+ "C08": dict(level="exploration", design="§4 C08",
+   technique="runtime monitoring: write/read-back oracle on driver-level values at five life-cycle points, under plain, AddressSanitizer and -race(checkptr) builds; separate reader process",
+   text="Boundary and random values of every storage class are written in key and non-key position and read back immediately, from a fresh connection, from another OS process given the bucket as a snapshot file, after a merge with an unrelated version and after vacuum; type and bytes must be identical, unmentioned columns NULL, refused values absent. One slice runs under ASan and one under -race/checkptr so that the cgo value path is sanitised.",
+   note="Bit-identity is judged on what mattn/go-sqlite3 returns; NaN is not generated; '' is a known finding (dependency). Sanitizer silence is 'no report on these executions'."),
  "C06": dict(level="exploration", design="§4 C06",
    technique="runtime monitoring: differential execution against native SQLite in the same connection (statement outcome classes and result sets)",
    text="Random single-writer programs are executed statement by statement on the s3db table and on a native WITHOUT ROWID table with the same untyped columns inside the same connection and transaction; the monitor compares every outcome class and every result set (key predicates, ORDER BY asc/desc, LIMIT, aggregates), across branch factors 2..4096, cache on/off, the hook-free built-in bucket, drop/re-create and second-connection re-opens. Exploration: programs are sampled, not enumerated.",
